@@ -39,7 +39,7 @@ def strata(rng, count, maxm=36, maxn=24):
             A[m // 2:] = A[: m - m // 2]
         else:
             A = nr.integers(0, 2, size=(m, n))
-        out.append(([[int(x) for x in row] for row in A.tolist()], ["int8", "int64", "uint8", "int32"][k % 4]))
+        out.append(([[int(x) for x in row] for row in A.tolist()], ["int8", "int64", "uint8", "int32", "bool"][k % 5]))
     return out
 
 
@@ -54,7 +54,7 @@ def run(tier):
         raise MachineryError(f"MC_F2: {res.violated_invariant} distinct={res.distinct}")
     ck.add_tlc("MC_F2(MaxDim=4)", res, note="executable Rref = declarative RREF of the row space; rank; rank-nullity; all matrices up to 4 x 4")
     dumped = [x for x in res.json_lines() if x.get("k") == "M"]
-    jobs = [(x["A"], ["int8", "int64"][i % 2]) for i, x in enumerate(dumped)]
+    jobs = [(x["A"], ["int8", "int64", "bool"][i % 3]) for i, x in enumerate(dumped)]
     nsmall = len(jobs)
     jobs += strata(ck.rng, 400 if quick else 6000)
     out = par.pmap(workers.f2_calls, jobs)
